@@ -42,6 +42,7 @@ func (o *Options) EnsureDefaults() *Options {
 	if o == nil {
 		o = &Options{}
 	}
+	verifDefaults(o)
 	if o.MaxLogFileSize == 0 {
 		o.MaxLogFileSize = MaxLogFileSize
 	}
